@@ -55,19 +55,14 @@ macro_rules! seq_shape {
                 {
                     let opts = DataSetWriterOptions::default().explicit_length_sq_item_strategy(if $keep { ExplicitLengthSqItemStrategy::NoChange } else { ExplicitLengthSqItemStrategy::SetUndefined });
                     let mut dw = DataSetWriter::new_with_options(&mut w, EncoderFor::new(ExplicitVRLittleEndianEncoder::default()), opts);
-                    let toks = [
-                        DataToken::SequenceStart { tag, len: Length(sq_len) },
-                        DataToken::ItemStart { len: Length(item_len) },
-                        DataToken::ElementHeader(DataElementHeader::new(Tag(0x0028, 0x0010), VR::US, Length(2))),
-                        DataToken::PrimitiveValue(PrimitiveValue::U16(smallvec![v])),
-                        DataToken::ItemEnd,
-                        DataToken::SequenceEnd,
-                    ];
-                    for t in toks {
-                        let r = dw.write(t);
-                        assert!(r.is_ok(), "writing a well-formed token failed");
-                        core::mem::forget(r);
-                    }
+                    // tokens are passed one by one as literals: moving them through an array makes CBMC lose the (concrete) variant
+                    macro_rules! w { ($t:expr) => { let r = dw.write($t); assert!(r.is_ok(), "writing a well-formed token failed"); core::mem::forget(r); } }
+                    w!(DataToken::SequenceStart { tag, len: Length(sq_len) });
+                    w!(DataToken::ItemStart { len: Length(item_len) });
+                    w!(DataToken::ElementHeader(DataElementHeader::new(Tag(0x0028, 0x0010), VR::US, Length(2))));
+                    w!(DataToken::PrimitiveValue(PrimitiveValue::U16(smallvec![v])));
+                    w!(DataToken::ItemEnd);
+                    w!(DataToken::SequenceEnd);
                     core::mem::forget(dw);
                 }
                 let mut want = [0u8; 96];
@@ -96,26 +91,20 @@ parser_stubs! {
         let mut w: CountW<96> = CountW::new();
         {
             let mut dw = DataSetWriter::new_with_options(&mut w, EncoderFor::new(ExplicitVRLittleEndianEncoder::default()), DataSetWriterOptions::default());
-            let toks = [
-                DataToken::PixelSequenceStart,
-                DataToken::ItemStart { len: Length(0) },
-                DataToken::ItemEnd,
-                DataToken::ItemStart { len: Length(2) },
-                DataToken::ItemValue(frag.to_vec()),
-                DataToken::ItemEnd,
-                DataToken::SequenceEnd,
-                DataToken::SequenceStart { tag, len: Length(18) },
-                DataToken::ItemStart { len: Length(10) },
-                DataToken::ElementHeader(DataElementHeader::new(Tag(0x0028, 0x0010), VR::US, Length(2))),
-                DataToken::PrimitiveValue(PrimitiveValue::U16(smallvec![v])),
-                DataToken::ItemEnd,
-                DataToken::SequenceEnd,
-            ];
-            for t in toks {
-                let r = dw.write(t);
-                assert!(r.is_ok());
-                core::mem::forget(r);
-            }
+            macro_rules! w { ($t:expr) => { let r = dw.write($t); assert!(r.is_ok()); core::mem::forget(r); } }
+            w!(DataToken::PixelSequenceStart);
+            w!(DataToken::ItemStart { len: Length(0) });
+            w!(DataToken::ItemEnd);
+            w!(DataToken::ItemStart { len: Length(2) });
+            w!(DataToken::ItemValue(frag.to_vec()));
+            w!(DataToken::ItemEnd);
+            w!(DataToken::SequenceEnd);
+            w!(DataToken::SequenceStart { tag, len: Length(18) });
+            w!(DataToken::ItemStart { len: Length(10) });
+            w!(DataToken::ElementHeader(DataElementHeader::new(Tag(0x0028, 0x0010), VR::US, Length(2))));
+            w!(DataToken::PrimitiveValue(PrimitiveValue::U16(smallvec![v])));
+            w!(DataToken::ItemEnd);
+            w!(DataToken::SequenceEnd);
             core::mem::forget(dw);
         }
         let mut want = [0u8; 96];
